@@ -5,6 +5,7 @@ package main
 // width big-endian encodings as spans, time.Time, hashing.
 
 import (
+	"reflect"
 	"crypto/md5"
 	"crypto/sha256"
 	"encoding/hex"
@@ -399,6 +400,9 @@ func registerCodec(e *Engine) {
 		target := args[1].(iface)
 		b, ok := hasBlob(bz)
 		if !ok {
+			if jsonFlatObject(fr, bz, target) {
+				return nilErr()
+			}
 			abort("unmodelled", "json.Unmarshal of raw bytes (called from %s)", fr.caller.fn)
 		}
 		dst := target.v.(*value)
@@ -415,6 +419,132 @@ func registerCodec(e *Engine) {
 		}
 		return errValue(fr, "json: cannot unmarshal %s into %s", b.t, target.t)
 	})
+}
+
+// jsonFlatObject decodes hand-written JSON text of the shape {"key":"text",...}
+// (what fmt.Sprintf(`{"hexPayload":"%s"}`, hex) produces) into a struct with
+// string fields. The text between the quotes may contain symbolic cells only if
+// they are hex digits (nibble characters), which can be neither a quote nor a
+// backslash. Anything else is left to the caller (unmodelled).
+func jsonFlatObject(fr *frame, cells []value, target iface) bool {
+	dst, ok := target.v.(*value)
+	if !ok || dst == nil {
+		return false
+	}
+	elem := derefType(target.t)
+	st, ok := elem.Underlying().(*types.Struct)
+	if !ok {
+		return false
+	}
+	cur, ok := (*dst).(structure)
+	if !ok {
+		return false
+	}
+	tab, _ := fr.p.hostState["nibbles"].(map[*Term]nibbleInfo)
+	conc := func(i int) (byte, bool) {
+		if i >= len(cells) {
+			return 0, false
+		}
+		c, ok := cells[i].(uint64)
+		return byte(c), ok
+	}
+	i := 0
+	if c, ok := conc(i); !ok || c != '{' {
+		return false
+	}
+	i++
+	out := make(structure, len(cur))
+	copy(out, cur)
+	for {
+		if c, ok := conc(i); !ok || c != '"' {
+			return false
+		}
+		i++
+		key := []byte{}
+		for {
+			c, ok := conc(i)
+			if !ok || c == '\\' {
+				return false
+			}
+			i++
+			if c == '"' {
+				break
+			}
+			key = append(key, c)
+		}
+		if c, ok := conc(i); !ok || c != ':' {
+			return false
+		}
+		i++
+		if c, ok := conc(i); !ok || c != '"' {
+			return false
+		}
+		i++
+		var val []value
+		for {
+			if i >= len(cells) {
+				return false
+			}
+			if c, ok := cells[i].(uint64); ok {
+				if c == '\\' {
+					return false
+				}
+				i++
+				if c == '"' {
+					break
+				}
+				val = append(val, c)
+				continue
+			}
+			t, isT := cells[i].(*Term)
+			if !isT || tab == nil {
+				return false
+			}
+			if _, isNibble := tab[t]; !isNibble {
+				return false
+			}
+			val = append(val, cells[i])
+			i++
+		}
+		// field by json tag (or name)
+		fi := -1
+		for f := 0; f < st.NumFields(); f++ {
+			tag := reflect.StructTag(st.Tag(f)).Get("json")
+			name := strings.Split(tag, ",")[0]
+			if name == "" {
+				name = st.Field(f).Name()
+			}
+			if name == string(key) {
+				fi = f
+			}
+		}
+		if fi >= 0 {
+			if b, isStr := st.Field(fi).Type().Underlying().(*types.Basic); !isStr || b.Kind() != types.String {
+				return false
+			}
+			if bs, allConc := concBytes(val); allConc {
+				out[fi] = string(bs)
+			} else {
+				out[fi] = &SymStr{parts: []strPart{{kind: "b", cells: val}}}
+			}
+		}
+		c, ok := conc(i)
+		if !ok {
+			return false
+		}
+		i++
+		if c == '}' {
+			break
+		}
+		if c != ',' {
+			return false
+		}
+	}
+	if i != len(cells) {
+		return false
+	}
+	*dst = out
+	return true
 }
 
 func fieldIndex(t types.Type, name string) int {
